@@ -357,6 +357,14 @@ def run(prog: Program, rep, tier="quick"):
     for x in ast.walk(es.node):
         if isinstance(x, ast.Compare) and isinstance(x.ops[0], ast.In) and isinstance(x.left, ast.Constant):
             refused |= set(x.left.value)
+        elif isinstance(x, ast.Compare) and isinstance(x.ops[0], ast.In) and isinstance(x.left, ast.Name):
+            # `for b in (b"\n", b"\0"): if b in name: raise` - the loop variable of a loop over a tuple of constants
+            for lp in ast.walk(es.node):
+                if isinstance(lp, ast.For) and isinstance(lp.target, ast.Name) and lp.target.id == x.left.id:
+                    vals = F.try_fold(lp.iter)
+                    if isinstance(vals, (tuple, list, set, frozenset)) and all(isinstance(v, bytes) for v in vals):
+                        for v in vals:
+                            refused |= set(v)
     raises = any(isinstance(x, ast.Raise) for x in ast.walk(es.node))
     rep.ob("R20.3", CFG_PY, "_escape_subsection", "LF and NUL are refused", raises and {0, 10} <= refused,
            f"refused={sorted(refused)}", es.node.lineno)
